@@ -42,12 +42,13 @@ def _restr(tier: str) -> Dict[str, Dict[str, List[Any]]]:
                    "L": [40], "stride": [1, 2, 3], "padding": [0], "dilation": [1, 2], "groups": [1, 2, "cin"],
                    "bias": [False, True]},
         "add": {"batch": [[2, 3], [2], [1, 2, 3]], "n": [5, 2, 3],
-                "pattern": ["equal", "size1", "missing_leading", "both_expand"]},
+                "pattern": ["equal", "size1", "missing_leading", "both_expand", "missing_and_size1",
+                            "missing_and_size1_left", "size1_inner"]},
         "embedding": {"batch": [[2], [], [2, 3], [1, 2, 3]], "n": [4, 1, 7], "V": [6, 2, 11], "D": [3, 1, 5],
                       "padding_idx": [None], "max_norm": [None], "norm_type": [2.0]},
         "dropout": {"batch": [[2], [2, 3]], "n": [64, 256], "p": [0.5, 0.1, 0.9], "training": [True]},
         "mse_loss": {"batch": BB, "n": D, "reduction": ["mean", "sum"], "target_grad": [True]},
-        "layer_norm": {"batch": BB[:4], "n": [5, 2, 8, 3], "nd": [1, 2], "weight": [True], "bias": [True],
+        "layer_norm": {"batch": BB[:4], "n": [5, 2, 8, 3], "nd": [1, 2], "weight": [True, False], "bias": [True, False],
                        "eps": [1e-5]},
         "rms_norm": {"batch": BB[:4], "n": [5, 2, 8, 3], "nd": [1, 2], "weight": [True], "eps": [1e-5]},
     }
@@ -164,7 +165,12 @@ def run_case(case: Dict[str, Any]) -> Dict[str, Any]:
             cc["eps"] = 0.0  # all-ones rows then normalise to exactly 1: the weight gradient counts rows
         tc = term_counts(op, cc)
         if op.name in ("layer_norm", "rms_norm"):
-            rows = _const(tc["bias"]) if op.name == "layer_norm" else _const(tc["weight"])
+            if op.name == "layer_norm":
+                # rows are counted on the bias gradient of the reference run WITH a bias (one term per row)
+                tcb = term_counts(op, dict(cc, weight=True, bias=True))
+                rows = _const(tcb["bias"])
+            else:
+                rows = _const(tc["weight"])
             check("grad_weight", cgrad.get("weight"), rows)
             if op.name == "layer_norm":
                 check("grad_bias", cgrad.get("bias"), rows)
